@@ -235,7 +235,15 @@ def extract(src=SRC, verbose=False):
         }
         raw["meta"] = meta
         # bound the per-unit cache
-        ents = sorted((os.path.getmtime(os.path.join(ucache, e)), e) for e in os.listdir(ucache))
+        ents = []
+        for e in os.listdir(ucache):
+            if not e.endswith(".pkl"):
+                continue
+            try:
+                ents.append((os.path.getmtime(os.path.join(ucache, e)), e))
+            except OSError:
+                pass
+        ents.sort()
         for _, e in ents[:-1200]:
             try:
                 os.remove(os.path.join(ucache, e))
